@@ -1631,14 +1631,44 @@ def _mk_base(rng, dtype, layout, kind):
 
 def _view_of(base, layout):
     if layout == 'view':
-        return base[1:-1, 1:-1]
+        return base[..., 1:-1, 1:-1]
     return base
 
 
-def _mk_raster(rng, dtype, layout, backend, kind='data', name='r'):
-    """-> (DataArray, base ndarray that owns the memory)"""
+def _mk_stack_base(rng, dtype, layout):
+    """3 layers, layer dimension FIRST (zonal.crosstab's 3-D values)"""
+    import numpy as np
+    hh, ww = (H + 2, W + 2) if layout == 'view' else (H, W)
+    vals = np.array([[[rng.randint(0, 5) for c in range(ww)] for r in range(hh)] for _l in range(3)])
+    return np.array(vals, dtype=dtype, order='F' if layout == 'F' else 'C')
+
+
+ATTRS_KINDS = ['res', 'nores', 'empty']
+
+
+def _mk_raster(rng, dtype, layout, backend, kind='data', name='r', attrs_kind='res'):
+    """-> (DataArray, base ndarray that owns the memory).  attrs_kind: 'res' (valid res attribute), 'nores' (attrs
+    without res: the cell size must be derived from the coordinates), 'empty' (no attrs at all)"""
     import numpy as np
     import xarray as xr
+    attrs = {'res': (2.0, 2.0), 'crs': 'EPSG:3857', 'nodatavals': [0.0], 'nested': {'a': [1, 2]}}
+    if attrs_kind == 'nores':
+        del attrs['res']
+    elif attrs_kind == 'empty':
+        attrs = {}
+    if kind == 'stack3':
+        base = _mk_stack_base(rng, dtype, layout)
+        arr = _view_of(base, layout)
+        if layout == 'readonly':
+            base.flags.writeable = False
+        data = arr
+        if backend == 'dask':
+            import dask.array as da
+            data = da.from_array(arr, chunks=(3, 3, 4))
+        agg = xr.DataArray(data, dims=['layer', 'y', 'x'], name=name,
+                           coords={'layer': np.array([10, 20, 30]), 'y': np.arange(H, dtype='float64')[::-1] * 2.0,
+                                   'x': np.arange(W, dtype='float64') * 2.0, 'spatial_ref': 0}, attrs=attrs)
+        return agg, base
     base = _mk_base(rng, dtype, layout, kind)
     arr = _view_of(base, layout)
     if layout == 'readonly':
@@ -1650,7 +1680,7 @@ def _mk_raster(rng, dtype, layout, backend, kind='data', name='r'):
     agg = xr.DataArray(data, dims=['y', 'x'], name=name,
                        coords={'y': np.arange(H, dtype='float64')[::-1] * 2.0, 'x': np.arange(W, dtype='float64') * 2.0,
                                'spatial_ref': 0, 'band': 1},
-                       attrs={'res': (2.0, 2.0), 'crs': 'EPSG:3857', 'nodatavals': [0.0], 'nested': {'a': [1, 2]}})
+                       attrs=attrs)
     return agg, base
 
 
@@ -1786,6 +1816,9 @@ def _registry():
                              {'return_type': 'xarray.DataArray', 'stats_funcs': ['mean', 'sum']}, variants=3, out='own'),
         'zonal.crosstab': multi('zonal', 'crosstab', [('zones', 'zones'), ('values', 'data')],
                                 extra=lambda r, v: {'zone_ids': [None, [1, 2]][v], 'cat_ids': [None, [1, 2, 3]][v]}, variants=2, out='own'),
+        # 3-D values, category dimension first (layer=None/0): one flattened row per layer is re-ordered by zone
+        'zonal.crosstab#3d': multi('zonal', 'crosstab', [('zones', 'zones'), ('values', 'stack3')],
+                                   extra=lambda r, v: {'layer': [None, 0][v], 'agg': ['sum', 'count'][v]}, variants=2, out='own'),
         'zonal.apply': multi('zonal', 'apply', [('zones', 'izones'), ('values', 'data')],
                              extra=lambda r, v: {'func': _plus_one, 'nodata': [0, 1][v]}, variants=2, backends=['numpy'], out='none'),
         'zonal.crop': multi('zonal', 'crop', [('zones', 'zones'), ('values', 'data')],
@@ -1829,7 +1862,8 @@ def _observe(case):
     rasters = {}
     bases = {}
     for (p, kind) in ent['rasters']:
-        rasters[p], bases[p] = _mk_raster(rng, case['dtype'], case['layout'], case['backend'], kind, name=p)
+        rasters[p], bases[p] = _mk_raster(rng, case['dtype'], case['layout'], case['backend'], kind, name=p,
+                                          attrs_kind=case.get('attrs', 'res'))
     extra = ent['extra'](rng, case['variant'])
     extra_snap = _copy.deepcopy({k: v for k, v in extra.items() if not callable(v)})
     snaps = {p: _snap_raster(rasters[p], bases[p]) for p in rasters}
@@ -1944,7 +1978,8 @@ def _observe_sequence(case):
     warnings.filterwarnings('ignore')
     reg = _registry()
     rng = random.Random(case['dataseed'])
-    agg, base = _mk_raster(rng, case['dtype'], case['layout'], case['backend'], 'data', name='agg')
+    agg, base = _mk_raster(rng, case['dtype'], case['layout'], case['backend'], 'data', name='agg',
+                           attrs_kind=case.get('attrs', 'res'))
     snap = _snap_raster(agg, base)
     obs = dict(case=case, steps=[])
     for (fn, variant) in case['sequence']:
@@ -1983,10 +2018,21 @@ SEQ_FUNCS = ['slope.slope', 'aspect.aspect', 'curvature.curvature', 'hillshade.h
              'terrain.generate_terrain', 'zonal.regions', 'zonal.trim']
 
 
+HARD_CASES = [
+    ('focal.mean', 'numpy', 'float64', 'C', 0, 'res'), ('focal.mean', 'numpy', 'float64', 'F', 0, 'nores'),
+    ('focal.mean', 'dask', 'float64', 'C', 0, 'res'),
+    ('zonal.crosstab#3d', 'numpy', 'float64', 'C', 0, 'res'), ('zonal.crosstab#3d', 'numpy', 'int32', 'C', 1, 'nores'),
+    ('slope.slope', 'numpy', 'float32', 'C', 0, 'nores'), ('curvature.curvature', 'dask', 'float64', 'C', 0, 'empty'),
+    ('pathfinding.a_star_search', 'numpy', 'float64', 'C', 0, 'nores'),
+    ('proximity.proximity', 'dask', 'int32', 'C', 1, 'nores'),
+    ('convolution.calc_cellsize', 'numpy', 'float64', 'C', 0, 'empty'),
+]
+
+
 def gen_cases(ctx, only=None, full=False):
     rng = ctx.rng
     reg = _registry()
-    names = sorted(reg) if only is None else [n for n in sorted(reg) if n in only]
+    names = sorted(reg) if only is None else [n for n in sorted(reg) if n.split('#')[0] in only or n in only]
     cases = []
     for fi, fn in enumerate(names):
         ent = reg[fn]
@@ -2005,9 +2051,18 @@ def gen_cases(ctx, only=None, full=False):
             for i in range(5):
                 be = ent['backends'][(i + off) % len(ent['backends'])]
                 combos.append((be, dts[i], los[i]))
+        aoff = rng.randrange(3)
         for i, (be, dt, lo) in enumerate(combos):
             cases.append(dict(kind='call', fn=fn, backend=be, dtype=dt, layout=lo,
                               variant=(i + rng.randrange(ent['variants'])) % ent['variants'],
+                              attrs=ATTRS_KINDS[(i + aoff + fi) % 3],
+                              dataseed=rng.randrange(1 << 30)))
+    # the property's named hard cases, in every run: a cast that is a no-op for the input's dtype (float64 through
+    # focal.mean with passes=0), 3-D crosstab values with the layer dimension first on a C-contiguous buffer,
+    # rasters without a res attribute through the functions that derive the cell size
+    for (fn, be, dt, lo, var, at) in HARD_CASES:
+        if fn in names:
+            cases.append(dict(kind='call', fn=fn, backend=be, dtype=dt, layout=lo, variant=var, attrs=at,
                               dataseed=rng.randrange(1 << 30)))
     nseq = (60 if full else 6) if only is None else 0
     for i in range(nseq):
@@ -2017,7 +2072,8 @@ def gen_cases(ctx, only=None, full=False):
             fn = rng.choice(SEQ_FUNCS)
             seq.append((fn, rng.randrange(reg[fn]['variants'])))
         cases.append(dict(kind='sequence', fn='sequence', backend=rng.choice(BACKENDS), dtype=rng.choice(DTYPES),
-                          layout=rng.choice(LAYOUTS), sequence=seq, dataseed=rng.randrange(1 << 30)))
+                          layout=rng.choice(LAYOUTS), attrs=rng.choice(ATTRS_KINDS), sequence=seq,
+                          dataseed=rng.randrange(1 << 30)))
     return cases
 
 
@@ -2094,11 +2150,12 @@ def evaluate(ctx, obs, pred):
                     [s[0] for s in c['sequence']], i + 1, st['fn'], '; '.join(st['modified'])), c, key=key)
                 break
         return
-    fn = c['fn']
+    fn = c['fn'].split('#')[0]          # registry keys may carry a '#variant' suffix (zonal.crosstab#3d)
     spec = RASTER_FUNCS.get(fn, {})
     allowed_w = set(p for (p, k) in spec.get('writes', ()) if k < 10)
     allowed_alias = set(spec.get('alias', ()))
-    ctx.count('%s/%s/%s' % (fn.split('.')[-1], c['backend'], 'error' if obs['error'] else 'ok'))
+    ctx.count('%s/%s/%s' % (c['fn'].split('.')[-1], c['backend'], 'error' if obs['error'] else 'ok'))
+    ctx.count('attrs/%s' % c.get('attrs', 'res'))
     ctx.count('dtype/%s' % c['dtype'])
     ctx.count('layout/%s' % c['layout'])
     perlin = (fn == 'perlin.perlin' and c['backend'] == 'numpy')
@@ -2202,7 +2259,7 @@ def search(ctx):
 
 
 def replay_case(ctx, case):
-    case = {k: v for k, v in case.items() if k in ('kind', 'fn', 'backend', 'dtype', 'layout', 'variant', 'dataseed', 'sequence')}
+    case = {k: v for k, v in case.items() if k in ('kind', 'fn', 'backend', 'dtype', 'layout', 'variant', 'dataseed', 'sequence', 'attrs')}
     if 'sequence' in case and case.get('kind') == 'sequence':
         case['sequence'] = [tuple(x) for x in case['sequence']]
     ctx.case(case)
